@@ -9,7 +9,7 @@ use crate::gen::*;
 use crate::model::{Kind, KINDS};
 use crate::props::common::*;
 use crate::props::types::*;
-use crate::run::{catch, hash_bytes, no_exh_case, no_exh_count, CaseResult, Ctx, Property};
+use crate::run::{catch, hash_bytes, CaseResult, Ctx, Property, Tier};
 use crate::tape::Gen;
 use coset::cbor::value::Value;
 use coset::ProtectedHeader;
@@ -335,6 +335,132 @@ fn gen_shape_bomb(g: &mut Gen, ctx: &mut Ctx) -> Vec<u8> {
     crate::cbor::encode_styled(&mut it, g, StyleOpts::ALL)
 }
 
+
+// ---- scaling oracle: time grows linearly with the width of the input ---------------------------
+
+fn thread_cpu_ns() -> u64 {
+    let mut ts = libc::timespec { tv_sec: 0, tv_nsec: 0 };
+    unsafe {
+        libc::clock_gettime(libc::CLOCK_THREAD_CPUTIME_ID, &mut ts);
+    }
+    ts.tv_sec as u64 * 1_000_000_000 + ts.tv_nsec as u64
+}
+
+/// A family of inputs parametrised by a width n (number of elements), and the type to decode as.
+struct Family {
+    name: &'static str,
+    ty: &'static str,
+    build: fn(usize) -> Vec<u8>,
+}
+
+fn arr_head(n: usize) -> Vec<u8> {
+    let mut b = vec![];
+    head(&mut b, 4, n as u64);
+    b
+}
+fn map_head(n: usize) -> Vec<u8> {
+    let mut b = vec![];
+    head(&mut b, 5, n as u64);
+    b
+}
+fn uint(n: u64) -> Vec<u8> {
+    let mut b = vec![];
+    head(&mut b, 0, n);
+    b
+}
+fn rep(prefix: Vec<u8>, n: usize, elem: impl Fn(usize) -> Vec<u8>) -> Vec<u8> {
+    let mut b = prefix;
+    for i in 0..n {
+        b.extend_from_slice(&elem(i));
+    }
+    b
+}
+
+fn families() -> &'static Vec<Family> {
+    static F: std::sync::OnceLock<Vec<Family>> = std::sync::OnceLock::new();
+    F.get_or_init(|| {
+        vec![
+            Family { name: "KDF context with n trailing private-info strings", ty: "CoseKdfContext", build: |n| rep([arr_head(n + 4), vec![0x01, 0x83, 0xf6, 0xf6, 0xf6, 0x83, 0xf6, 0xf6, 0xf6, 0x82, 0x18, 0x80, 0x40]].concat(), n, |_| vec![0x41, 0x07]) },
+            Family { name: "header with n extra parameters", ty: "Header", build: |n| rep(map_head(n), n, |i| [uint(1000 + i as u64), vec![0x00]].concat()) },
+            Family { name: "header with n crit entries", ty: "Header", build: |n| rep([vec![0xa1, 0x02], arr_head(n)].concat(), n, |_| vec![0x01]) },
+            Family { name: "header with n counter-signatures", ty: "Header", build: |n| rep([vec![0xa1, 0x07], arr_head(n)].concat(), n, |_| vec![0x83, 0x40, 0xa0, 0x40]) },
+            Family { name: "protected header with n extras inside COSE_Sign1", ty: "CoseSign1", build: |n| {
+                let inner = rep(map_head(n), n, |i| [uint(1000 + i as u64), vec![0x00]].concat());
+                [vec![0x84], bstr(&inner), vec![0xa0, 0xf6, 0x40]].concat()
+            } },
+            Family { name: "key with n extra parameters", ty: "CoseKey", build: |n| rep([map_head(n + 1), vec![0x01, 0x01]].concat(), n, |i| [uint(1000 + i as u64), vec![0x00]].concat()) },
+            Family { name: "key with n text key operations", ty: "CoseKey", build: |n| rep([vec![0xa2, 0x01, 0x01, 0x04], arr_head(n)].concat(), n, |i| { let t = format!("{:06}", i); let mut b = vec![]; head(&mut b, 3, t.len() as u64); b.extend_from_slice(t.as_bytes()); b }) },
+            Family { name: "key set of n keys", ty: "CoseKeySet", build: |n| rep(arr_head(n), n, |_| vec![0xa1, 0x01, 0x01]) },
+            Family { name: "COSE_Sign with n signers", ty: "CoseSign", build: |n| rep([vec![0x84, 0x40, 0xa0, 0xf6], arr_head(n)].concat(), n, |_| vec![0x83, 0x40, 0xa0, 0x40]) },
+            Family { name: "COSE_Encrypt with n recipients", ty: "CoseEncrypt", build: |n| rep([vec![0x84, 0x40, 0xa0, 0x41, 0x01], arr_head(n)].concat(), n, |_| vec![0x83, 0x40, 0xa0, 0x41, 0x02]) },
+            Family { name: "COSE_Mac with n recipients", ty: "CoseMac", build: |n| rep([vec![0x85, 0x40, 0xa0, 0x41, 0x01, 0x40], arr_head(n)].concat(), n, |_| vec![0x83, 0x40, 0xa0, 0xf6]) },
+            Family { name: "recipient with n nested recipients", ty: "CoseRecipient", build: |n| rep([vec![0x84, 0x40, 0xa0, 0xf6], arr_head(n)].concat(), n, |_| vec![0x83, 0x40, 0xa0, 0x41, 0x02]) },
+            Family { name: "claims set with n extra text claims", ty: "ClaimsSet", build: |n| rep(map_head(n), n, |i| { let t = format!("{:06}", i); let mut b = vec![]; head(&mut b, 3, t.len() as u64); b.extend_from_slice(t.as_bytes()); b.push(0x00); b }) },
+            Family { name: "COSE_Sign1 with an n-chunk indefinite payload", ty: "CoseSign1", build: |n| { let mut b = vec![0x84, 0x40, 0xa0, 0x5f]; for _ in 0..n { b.extend_from_slice(&[0x41, 0x61]); } b.extend_from_slice(&[0xff, 0x40]); b } },
+            Family { name: "value: array of n integers", ty: "Value", build: |n| rep(arr_head(n), n, |_| vec![0x00]) },
+        ]
+    })
+}
+
+/// CPU time (ns) of decode + follow-ups of the family's type on the input of width n (min of 2).
+fn time_family(f: &Family, n: usize) -> Result<(u64, usize), String> {
+    let t = all_types().iter().find(|t| t.name == f.ty).ok_or("type")?;
+    let b = (f.build)(n);
+    let mut best = u64::MAX;
+    for _ in 0..2 {
+        let t0 = thread_cpu_ns();
+        let ok = catch(|| (t.follow)(&b, b"aad", b"payload")).map_err(|p| format!("{}: panic on {} with n = {}: {}", f.ty, f.name, n, p))?;
+        let dt = thread_cpu_ns() - t0;
+        if !ok {
+            return Err(format!("harness: family '{}' with n = {} is not accepted by {}", f.name, n, f.ty));
+        }
+        best = best.min(dt);
+    }
+    Ok((best.max(1), b.len()))
+}
+
+/// Quadrupling ladder: for code whose time is proportional to the input, t(4n)/t(n) stays near 4;
+/// the check fails only when two consecutive quadruplings both cost more than 11x (a quadratic
+/// algorithm gives 16x at every step once its quadratic term dominates).
+fn scaling_case(idx: usize, ctx: &mut Ctx) -> CaseResult {
+    let f = &families()[idx];
+    ctx.classf(format!("scaling:{}", f.ty));
+    let mut n = 500usize;
+    let mut ratios: Vec<(usize, f64, u64)> = vec![];
+    let (mut t_prev, _) = time_family(f, n)?;
+    loop {
+        let n4 = n * 4;
+        let (t4, len4) = time_family(f, n4)?;
+        if t4 >= 20_000_000 {
+            ratios.push((n4, t4 as f64 / t_prev as f64, t4));
+        }
+        ctx.maximum("scaling:largest-width", n4 as u64);
+        if t4 >= 1_000_000_000 || len4 >= (2 << 20) || n4 >= 400_000 {
+            break;
+        }
+        n = n4;
+        t_prev = t4;
+    }
+    ctx.nontrivial(hash_bytes(f.name.as_bytes()));
+    ctx.sample_with(|| format!("scaling of {} over '{}': quadrupling ratios {:?}", f.ty, f.name, ratios.iter().map(|(n, r, t)| format!("n={} x{:.1} ({} ms)", n, r, t / 1_000_000)).collect::<Vec<_>>()));
+    if ratios.len() >= 2 {
+        let a = &ratios[ratios.len() - 2];
+        let b = &ratios[ratios.len() - 1];
+        if a.1 > 11.0 && b.1 > 11.0 && b.2 >= 150_000_000 {
+            fail!("{}: decoding time is not proportional to the input for '{}': quadrupling the width costs x{:.1} (n = {}) and x{:.1} (n = {}, {} ms CPU)", f.ty, f.name, a.1, a.0, b.1, b.0, b.2 / 1_000_000);
+        }
+    }
+    Ok(())
+}
+
+fn exh_count(_t: Tier) -> u64 {
+    families().len() as u64
+}
+
+fn exh_case(idx: u64, ctx: &mut Ctx) -> CaseResult {
+    scaling_case(idx as usize, ctx)
+}
+
 fn case(g: &mut Gen, ctx: &mut Ctx) -> CaseResult {
     let aad = g.small_bytes();
     let payload = g.small_bytes();
@@ -432,13 +558,13 @@ pub fn property() -> Property {
                shape bombs (arity 0..7 arrays of arbitrary slots, counter-signature / key_ops / crit oddities); size/depth bombs up to 1 MiB (thorough 4 MiB): nesting to depth 2^17, huge declared lengths, chunk chains, wide flat arrays/maps/key sets/signer lists, \
                recipient nesting, and protected-header ⊃ counter-signature chains of depth up to 60000 in three shapes (protected / unprotected / alternating) x four forms (single counter-signature, array of one, array of two, alternating) inside nine carriers — through every decoding entry point (from_slice of every type, from_tagged_slice of the six tagged types, ProtectedHeader::from_cbor_bstr), \
                followed on accepted values by clone, ==, Debug, re-encode, drop and the to-be-signed / verify / MAC / decrypt helpers under their documented preconditions; in a supervised worker on a 2 MiB stack; \
-               oracle: no panic, no process death, heap peak <= 4096n+2MiB and total allocation <= 16384n+8MiB per entry point (>= 8x the maxima observed on the unchanged tree, which the evidence reports) (deterministic proxy for linear time), a watchdog for hangs (inconclusive, not a violation); \
+               oracle: no panic, no process death, heap peak <= 4096n+2MiB and total allocation <= 16384n+8MiB per entry point (>= 8x the maxima observed on the unchanged tree, which the evidence reports) (deterministic proxy for linear time), a watchdog for hangs (inconclusive, not a violation); plus a scaling oracle: for 15 families of wide inputs (n trailing KDF strings, n extras, n signers, n recipients, n keys, n chunks ...) thread CPU time of decode + follow-ups is measured on a quadrupling ladder and two consecutive steps costing more than 11x (linear: 4x, quadratic: 16x) fail; \
                non-trivial = well-formed CBOR accepted by some entry point, or any bomb; distinct by input bytes",
-        assumptions: &["'ordinary thread stack' = Rust's default 2 MiB for spawned threads, release build of the harness with overflow checks on", "time proportionality is checked through allocated bytes and a 120 s per-case watchdog only"],
-        exhaustive_domains: &[],
+        assumptions: &["'ordinary thread stack' = Rust's default 2 MiB for spawned threads, release build of the harness with overflow checks on", "time proportionality is checked through allocated bytes, a CPU-time quadrupling ladder on parametric wide inputs (threshold 11x on two consecutive steps) and a 120 s per-case watchdog"],
+        exhaustive_domains: &["scaling ladder (n, 4n, 16n, ... up to 4*10^5 elements / 2 MiB / 1 s) over 15 parametric wide-input families"],
         case,
-        exh_count: no_exh_count,
-        exh_case: no_exh_case,
+        exh_count,
+        exh_case,
         bytes_case: Some(bytes_case),
         quick_cases: 60_000,
         thorough_cases: 1_500_000,
